@@ -254,6 +254,36 @@ CHECKS = {
 }
 
 
+# What was added after the first registration (workloads and oracles grown from seeded changes and sweeps).
+ADDED = {
+ "C01": "Later additions: a quarter of modules omit $default byte_order (one-byte fields through NullByteOrderer); 32/64-bit "
+        "arithmetic and comparisons over 4/8-byte fields kept inside the 64-bit gate by interval arithmetic; $present() and "
+        "$size_in_bytes as values; [requires] on constants; Max/MinSizeIn* constants observed (exact where static, bounds on every "
+        "record); reports that are MORE known than the strict three-valued model (compiler folds from bounds) are accepted only "
+        "if the ordinary comparison under 8 random completions of the unreadable leaves finds no difference.",
+ "C03": "Later additions: bit fields of 24..63 bits; any narrow signed enum tag taints the case (listed finding).",
+ "C04": "Later additions: hostile text input (boundary literals in every spelling aimed at real leaves, array indices and nested "
+        "paths) through UpdateFromText on Ok and non-Ok views; modules without $default byte_order.",
+ "C05": "Later additions: twin members (a.x * b.x), comparison operands fitting one 64-bit type, subexpressions below a "
+        "compile-time constant are not run-time subexpressions (not judged for the 64-bit fit).",
+ "C06": "Later additions: hostile text input under UBSan; encoder emits INT_MIN and extreme doubles.",
+ "C07": "Later additions: 'constants' modules (constants, folded expressions, tag == c conditions, enumerators and constant-"
+        "condition ?: at the 2^k edges) with static_asserts on enumerators too.",
+ "C12": "Later additions: the import alias is drawn from the field / abbreviation / parameter name pool, so a bare name can be "
+        "visible both locally and as an alias (must be ambiguous).",
+ "C13": "Later additions: a second enum with the same last name component (Sub.Ea next to Ea) in every two-enum rule.",
+ "C14": "Later additions: explicit-width sweep (type x container x field size x explicit width incl. 0).",
+ "C15": "Later additions: planted nodes that are fields of a parameterised type whose argument mentions their successors.",
+ "C16": "Later additions: a synthetic ('compiler bug') location is classified by the source text it disowns, `$next` being "
+        "user-written; edge-location workload (starts / sizes / $next summing past 2^64).",
+ "C17": "Later additions: in-process repetition is its own child; children with different histories are compared up to reserved "
+        "anonymous numbering, same-history children byte for byte; crash texts compared by exception type and site only.",
+ "C18": "Later additions: deep / wide modules (150-field $next runs, 120-term chains, 45-deep nesting, 14-level subtypes).",
+ "C19": "Later additions: enum values at the 2^k edges of the C++ integer types.",
+ "C20": "Later additions: overlapping-copy cases classified by the source sub-range.",
+}
+
+
 def main():
     checks = []
     for pid in ALL:
@@ -267,7 +297,8 @@ def main():
             "evidence_file": "evidence/%s.json" % pid,
             "replay_cmd_template": "./vcheck %s --replay {path}" % pid,
             "engine": "vcheck",
-            "level_claimed": {"category": c["category"], "text": c["text"], "design_ref": c["design_ref"]},
+            "level_claimed": {"category": c["category"], "text": c["text"] + ((" " + ADDED[pid]) if pid in ADDED else ""),
+                              "design_ref": c["design_ref"]},
             "level_note": c["note"],
             "technique": c["technique"],
         })
